@@ -1,9 +1,12 @@
 (* C18 — ffi.unpack equals element-wise reading.  Statements only; proofs in C18/Proofs.v.
    [gen_tables] (C18/Gen.v) is regenerated from b_unpack's source on every run: a change of a
-   casenum chain or of a `case N:` line changes Gen.v and these statements are re-proved against it. *)
+   casenum chain or of a `case N:` line changes Gen.v and these statements are re-proved against it.
+   [from_char16], [from_char32], [count_surrogates], [join16_loop] (C15/Gen.v) are regenerated from
+   src/c/wchar_helper_3.h (_my_PyUnicode_FromChar16/32) on every run as well; the CPython functions they
+   call are specified in C15/Spec.v. *)
 From Coq Require Import ZArith List Bool.
 Import ListNotations.
-From Cffi Require Import C18.Model C18.Gen C18.Proofs.
+From Cffi Require Import C15.WProofs C18.Model C18.Gen C18.Proofs.
 Open Scope Z_scope.
 
 (* For every item kind the backend can create except char16_t, every item alignment, every start
@@ -54,6 +57,59 @@ Theorem C18_char16_same_utf16 : forall align addr bs n,
 Proof. intros. apply unpack_elementwise_char16_utf16; assumption. Qed.
 Print Assumptions C18_char16_same_utf16.
 
+(* ---- the wide-character helpers themselves, for ALL unit lists (regenerated definitions) ---- *)
+(* char32_t / wchar_t: converting a whole run = converting each unit alone and concatenating (first
+   exception wins): element-wise reading and ffi.unpack cannot differ, whatever the units are
+   (U+FEFF, 0xFFFE0000, surrogates, values above 0x10FFFF included) *)
+Theorem C18_char32_whole_is_elementwise : forall w,
+  from_char32 w = concat_res (map (fun u => from_char32 [u]) w).
+Proof. exact from_char32_elementwise. Qed.
+Print Assumptions C18_char32_whole_is_elementwise.
+
+(* ... no unit is dropped, altered, combined or interpreted: a successful conversion is the identity
+   on code units, it succeeds whenever all units are <= 0x10FFFF, and it fails only with SystemError
+   on a unit above 0x10FFFF, which fails alone in the same way *)
+Theorem C18_char32_identity : forall w s, from_char32 w = Ok s -> s = w.
+Proof. exact from_char32_identity. Qed.
+Print Assumptions C18_char32_identity.
+
+Theorem C18_char32_ok : forall w, Forall (fun u => u <= 0x10FFFF) w -> from_char32 w = Ok w.
+Proof. exact from_char32_ok. Qed.
+Print Assumptions C18_char32_ok.
+
+Theorem C18_char32_error : forall w e, from_char32 w = Err e ->
+  e = SystemError /\ exists u, In u w /\ 0x10FFFF < u /\ from_char32 [u] = Err SystemError.
+Proof. exact from_char32_error. Qed.
+Print Assumptions C18_char32_error.
+
+(* char16_t: whole-run and unit-by-unit conversion differ EXACTLY when a high surrogate
+   (0xD800..0xDBFF) is immediately followed by a low surrogate (0xDC00..0xDFFF) - the known finding
+   char16_pair, restated on the regenerated loops; the whole-run conversion never fails and fills the
+   allocated str exactly *)
+Theorem C18_char16_whole_vs_elementwise : forall w,
+  from_char16 w = concat_res (map (fun u => from_char16 [u]) w) <-> count_surrogates w = 0.
+Proof. exact from_char16_elementwise_iff. Qed.
+Print Assumptions C18_char16_whole_vs_elementwise.
+
+Theorem C18_char16_differs_iff_adjacent_pair : forall w,
+  from_char16 w <> concat_res (map (fun u => from_char16 [u]) w) <->
+  exists l1 a b l2, w = l1 ++ a :: b :: l2 /\ 0xD800 <= a <= 0xDBFF /\ 0xDC00 <= b <= 0xDFFF.
+Proof. exact from_char16_differs_iff. Qed.
+Print Assumptions C18_char16_differs_iff_adjacent_pair.
+
+Theorem C18_char16_allocation_exact : forall w,
+  from_char16 w = Ok (join16_loop w) /\ zlen (join16_loop w) = zlen w - count_surrogates w.
+Proof. exact from_char16_allocation_exact. Qed.
+Print Assumptions C18_char16_allocation_exact.
+
+(* the same for ffi.unpack over memory *)
+Theorem C18_char16_unpack_iff : forall align addr bs n,
+  0 <= n -> n * 2 <= Z.of_nat (length bs) -> addr <> 0 ->
+  (unpack gen_tables (KChar 2) align addr bs n = joined (KChar 2) (elementwise (KChar 2) addr bs n)
+   <-> count_surrogates (units 2 bs (Z.to_nat n)) = 0).
+Proof. intros. apply unpack_elementwise_char16_iff; assumption. Qed.
+Print Assumptions C18_char16_unpack_iff.
+
 (* Every statement above is about n items INSIDE the memory (n * itemsize <= length bs) at a non-NULL
    address.  Outside, the model makes no claim: a read past the end of the modelled memory is the
    explicit error OutOfModel for ffi.unpack and for p[i] alike. *)
@@ -94,4 +150,17 @@ Example C18_example_others :
   unpack gen_tables (KChar 2) 2 4096 [0x3D; 0xD8; 0x00; 0xDE] 2 = RStr [128512] /\
   joined (KChar 2) (elementwise (KChar 2) 4096 [0x3D; 0xD8; 0x00; 0xDE] 2) = RStr [55357; 56832] /\
   unpack gen_tables (KChar 4) 4 4096 [0x3D; 0xD8; 0; 0; 0; 0; 0x11; 0] 2 = RErr SystemError.
+Proof. vm_compute. repeat split; reflexivity. Qed.
+
+(* code points with a special meaning to codecs are plain data here: U+FEFF first / in the middle,
+   0xFFFE0000, lone and paired surrogates in char32_t; a BOM in char16_t *)
+Example C18_example_codec_specials :
+  from_char32 [0xFEFF; 0x41; 0xFEFF; 0xFFFE; 0xD800; 0xDC00; 0x10FFFF] =
+    Ok [0xFEFF; 0x41; 0xFEFF; 0xFFFE; 0xD800; 0xDC00; 0x10FFFF] /\
+  from_char32 [0x41; 0xFFFE0000] = Err SystemError /\ from_char32 [0x110000] = Err SystemError /\
+  from_char16 [0xFEFF; 0x41; 0xFFFE; 0xDC00; 0xD800] = Ok [0xFEFF; 0x41; 0xFFFE; 0xDC00; 0xD800] /\
+  from_char16 [0xD800; 0xDC00; 0xDBFF; 0xDFFF; 0xD800] = Ok [0x10000; 0x10FFFF; 0xD800] /\
+  unpack gen_tables (KChar 4) 4 4096 [0x41; 0; 0; 0; 0xFF; 0xFE; 0; 0; 0x42; 0; 0; 0] 3 = RStr [0x41; 0xFEFF; 0x42] /\
+  joined (KChar 4) (elementwise (KChar 4) 4096 [0x41; 0; 0; 0; 0xFF; 0xFE; 0; 0; 0x42; 0; 0; 0] 3)
+    = RStr [0x41; 0xFEFF; 0x42].
 Proof. vm_compute. repeat split; reflexivity. Qed.
